@@ -5,7 +5,8 @@ from contracts import transport, specs
 
 ID = "C18"
 T = "paramiko.transport.Transport."
-TARGETS = [T + "_parse_global_request", T + "_parse_channel_open", "paramiko.channel.Channel._handle_request"]
+TARGETS = [T + "_parse_global_request", T + "_parse_channel_open", "paramiko.channel.Channel._handle_request",
+           T + "request_port_forward"]
 REPLAY = {"*": "c18.replay_client"}
 MAX_PATHS = 20000
 
